@@ -44,6 +44,8 @@ def check_bytes(case):
         cls.append("nt:all-zero")
     if case.get("kind") == "radix":
         cls.append("nt:radix-boundary")
+    if case.get("kind") == "digits":
+        cls.append("nt:value-given-by-its-base58-digits")
     if case.get("kind") == "nested":
         cls.append("nt:payload-is-base58-text")
     if case.get("kind") == "text":
@@ -107,7 +109,21 @@ def check_string(case):
 
 @st.composite
 def bytes_cases(draw):
-    kind = draw(st.sampled_from(["zeros+body", "allzero", "allff", "radix", "random", "random", "nested", "text"]))
+    kind = draw(st.sampled_from(["zeros+body", "allzero", "allff", "radix", "random", "random", "nested", "text", "digits", "digits"]))
+    if kind == "digits":
+        # a value given by its Base58 digits: the leading one to three digits from the small and the large end of the digit
+        # range (1, 2, 56, 57 - e.g. "21", "2z", "zz1"), the rest all-zero, all-57 or random; any number of digits
+        lead = draw(st.lists(st.sampled_from([1, 1, 2, 2, 57, 56, 0]), min_size=1, max_size=3))
+        if lead[0] == 0:
+            lead[0] = 1
+        n = draw(st.integers(0, 170))
+        rest = draw(st.sampled_from(["zeros", "max", "random", "random"]))
+        tail = [0] * n if rest == "zeros" else [57] * n if rest == "max" else draw(st.lists(st.integers(0, 57), min_size=n, max_size=n))
+        v = 0
+        for dgt in lead + tail:
+            v = v * 58 + dgt
+        data = b"\x00" * draw(st.integers(0, 2)) + v.to_bytes((v.bit_length() + 7) // 8, "big")
+        return {"kind": kind, "data": hx(data[:128])}
     if kind == "nested":
         # a payload that is itself Base58 / Base58Check text (an address, a WIF string, an encoding of an encoding)
         inner = draw(st.one_of(st.binary(max_size=40), st.just(b""), st.just(b"hello world"), st.binary(min_size=21, max_size=21)))
@@ -180,7 +196,7 @@ def _targets(tier):
             check_bytes,
             strategy=lambda tier: bytes_cases(),
             budget={"quick": 20000, "thorough": 400000},
-            required=["nt:leading-zeros", "nt:empty", "nt:all-zero", "nt:radix-boundary", "nt:data>=96-bytes", "nt:payload-is-base58-text", "nt:payload-reads-as-text"],
+            required=["nt:leading-zeros", "nt:empty", "nt:all-zero", "nt:radix-boundary", "nt:data>=96-bytes", "nt:payload-is-base58-text", "nt:payload-reads-as-text", "nt:value-given-by-its-base58-digits"],
         ),
         Target(
             "string-accept",
